@@ -77,7 +77,18 @@ def _c05_viol(res):
     return v
 
 
+def _c06_viol(res):
+    v = []
+    for r in res["lex"]["verdicts"]:
+        if r["bad"]:
+            v.append(dict(stage="lex", id=r["id"], iid=r["iid"], what=r["bad"][:4], kind="lex"))
+    if not res["lex"]["mc_lex_ok"]:
+        v.append(dict(stage="lex", id="MC_Lex", what=[["LexOrder_disagrees_with_LexDoc"]], kind="mc_lex"))
+    return v
+
+
 PROPS = {
+    "C06": dict(stages=["lex"], viol=_c06_viol),
     "C05": dict(stages=["tables", "resolve", "prec"], viol=_c05_viol),
     "C01": dict(stages=["tables", "lr", "mci_lr"],
                 viol=lambda res: _trace_viol(res, "lr", "c01") + _mci_viol(res, "mci_lr", "C01")),
